@@ -106,6 +106,22 @@ class Ctx:
             self._memo[k] = r
         return r
 
+    # ---- write set of a solo cold call (workload selection only) -----------------------
+    def _writes_child(self, call):
+        _limit_memory()
+        return engine.write_set(self.a5, call)
+
+    def writes(self, call):
+        k = 'W#' + call_key(call)
+        r = self._memo.get(k)
+        if r is None:
+            try:
+                r = forks.fork_call(self._writes_child, (call,), 120.0)
+            except Exception:
+                r = {}
+            self._memo[k] = r
+        return r
+
     def value(self, call):
         o = self.oracle(call)['outcome']
         if o[0] != 'ok':
